@@ -21,8 +21,23 @@ def cint(x: int, n: int) -> int:
 
 
 class World:
-    def __init__(self):
+    def __init__(self, small=False):
         Node.store.clear()
+        if small:
+            # depth-3 runs: a 4-node tree and a lone node, registry-only operations (create, copy, attach, replace, delete, re-import)
+            r = Node("r", id="r")
+            a = Node("a", id="a")
+            a.add_child(Node("b", id="b"))
+            r.add_child(a)
+            r.add_child(Node("c", id="c"))
+            lone = Node("keyword", id="lone", content="k")
+            self.roots = [r, lone]
+            self.live = {}
+            for x in self.roots:
+                for n in nodes(x):
+                    self.live[n.id] = n
+            self.counter = 0
+            return
         ds = Node("dataset", id="ds")
         ds.add_child(Node("title", id="t", content="T"))
         cr = Node("creator", id="cr")
@@ -75,6 +90,8 @@ class World:
 
     def step(self, op, a, flag):
         held = self.held()
+        if not held:
+            return ""
         n = held[a % len(held)]
         if op == 0:
             x = self.fresh("keyword")
@@ -193,7 +210,8 @@ def h_history(a1: int, f1: bool, op2: int, a2: int, f2: bool, op3: int, a3: int,
     pre: 0 <= a1 <= 7 and 0 <= op2 <= 8 and 0 <= a2 <= 11 and 0 <= op3 <= 8 and 0 <= a3 <= 11
     post: _ == ""
     """
-    w = World()
+    w = World(small=(DEPTH == 3))
+    nops = 6 if DEPTH == 3 else NOPS
     r = w.check("initial")
     if r:
         return r
@@ -207,9 +225,9 @@ def h_history(a1: int, f1: bool, op2: int, a2: int, f2: bool, op3: int, a3: int,
     r = w.step(op1, a1c if op1 in need_a else 0, f1c if op1 in (3, 4, 7) else True)
     if r:
         return r
-    op2 = OP2PIN if OP2PIN >= 0 else cint(op2, NOPS)
-    r = w.step(op2, cint(a2, 12) if op2 in need_a else 0, f2 if op2 in (3, 4, 7) else True)
+    op2 = OP2PIN if OP2PIN >= 0 else cint(op2, nops)
+    r = w.step(op2, cint(a2, 6 if DEPTH == 3 else 12) if op2 in need_a else 0, f2 if op2 in (3, 4, 7) else True)
     if r or DEPTH < 3:
         return r
-    op3 = cint(op3, NOPS)
-    return w.step(op3, cint(a3, 12) if op3 in need_a else 0, f3 if op3 in (3, 4, 7) else True)
+    op3 = cint(op3, nops)
+    return w.step(op3, cint(a3, 6) if op3 in need_a else 0, f3 if op3 in (3, 4, 7) else True)
